@@ -571,7 +571,7 @@ def check_stream(ctx, drv, spec_cache, st, chunkings, what):
 def tie_codec(ctx, drv):
     """utf8_cp / py_isspace / utf8_decode / strip / utf8_encode against CPython."""
     rng = ctx.rng
-    if ctx.thorough or ctx.escalated:
+    if ctx.thorough:
         cps = [c for c in range(0x110000) if not 0xD800 <= c <= 0xDFFF]
         ctx.extra["codec_all_code_points"] = True
     else:
@@ -868,7 +868,7 @@ def explore(ctx, drv):
     med = medium_streams(ctx)
     for st in med:
         n = len(st["bytes"])
-        k = 3 if (ctx.thorough or ctx.escalated) and n <= kmax_len else 2
+        k = 3 if ctx.thorough and n <= kmax_len else 2
         check_stream(ctx, drv, spec_cache, st, list(cuts_exhaustive(n, k)), f"exhaustive-k<={k}")
     ctx.extra["exhaustive_k2_streams"] = len(med)
     rng = ctx.rng
